@@ -274,7 +274,7 @@ pub async fn run_case(c: Case) -> Result<CaseInfo, Failure> {
 }
 
 pub fn check_case(c: &Case) -> Result<CaseInfo, Failure> {
-    crate::bed::run_case("C04", run_case(c.clone()))
+    run_isolated("C04", c.clone(), &run_case)
 }
 
 fn kinds_for(role: Role) -> Vec<Kind> {
@@ -285,7 +285,7 @@ fn kinds_for(role: Role) -> Vec<Kind> {
     }
 }
 
-fn case_strategy(role: Role) -> impl Strategy<Value = Case> {
+fn case_strategy(role: Role) -> BoxedStrategy<Case> {
     (
         prop::collection::vec(prop::sample::select(kinds_for(role)), 2..8),
         any::<u32>(),
@@ -312,6 +312,7 @@ fn case_strategy(role: Role) -> impl Strategy<Value = Case> {
             open_after,
             stall,
         })
+        .boxed()
 }
 
 fn permutations(items: &[u8]) -> Vec<Vec<u8>> {
@@ -365,34 +366,19 @@ fn exhaustive(ctx: &Ctx) -> Stats {
     }
     par_shards(WORKERS, |shard| {
         let mut st = Stats::default();
-        for (i, c) in work.iter().enumerate() {
-            if i % WORKERS != shard {
-                continue;
-            }
-            match check_case(c) {
-                Ok(info) => {
-                    st.record(&info);
-                    if info.nontrivial.is_some() {
-                        st.sample_at(st.evaluations, || json!({"case": c}));
-                    }
-                }
-                Err(f) => {
-                    st.evaluations += 1;
-                    st.fail(f.with_case(json!({"case": c})));
-                }
-            }
-        }
+        let mine: Vec<Case> = work.iter().enumerate().filter(|(i, _)| i % WORKERS == shard).map(|(_, c)| c.clone()).collect();
+        run_list_bed("C04", mine, &mut st, |c| json!({"case": c}), run_case);
         st
     })
 }
 
 pub fn run(ctx: &Ctx, started: Instant) -> i32 {
     let mut stats = exhaustive(ctx);
-    let per_shard = ctx.tier.pick(400u32, 20_000);
+    let per_shard = ctx.tier.pick(3_000u32, 50_000);
     let rnd = par_shards(WORKERS, |shard| {
         let mut st = Stats::default();
         let role = [Role::V3Server, Role::V5Server, Role::V5Server, Role::V3Server, Role::V3Client, Role::V5Client, Role::V5Server, Role::V3Server][shard % 8];
-        run_proptest(ctx.sub_seed("rand", shard), per_shard, &case_strategy(role), &mut st, |c| json!({"case": c}), check_case);
+        run_proptest_bed("C04", ctx.sub_seed("rand", shard), per_shard, &case_strategy(role), &mut st, |c| json!({"case": c}), run_case);
         st
     });
     stats.merge(rnd);
